@@ -40,6 +40,22 @@ Theorem C18_anim_error_alpha :
 Proof. exact anim_error_alpha. Qed.
 Print Assumptions C18_anim_error_alpha.
 
+(** ... and with pre-encoded frames mixed in (see C08_anim_mixed_roundtrip). *)
+Theorem C18_anim_mixed_alpha :
+  forall (rt_ll rt_ly : img -> img) (W H : Z) (opts : eopts) (ops : list op)
+         (oracle : nat -> orc) (fails : nat -> efail) (maxf : Z) (has_meta simple : bool)
+         (st0 stf : est) (acc : list op) (out : output),
+    codec_lossless rt_ll -> codec_alpha_exact rt_ly ->
+    wf_canvas_dims W H -> alpha_opts opts -> Forall (AnimEncSpec.wf_op W H) ops ->
+    new_encoder W H opts = Some st0 ->
+    run_ops repaired maxf oracle fails st0 ops = (stf, acc) ->
+    lone_small_raw_ok W H has_meta acc ->
+    close has_meta simple stf = Some out ->
+    same_show_by alpha_only W H (eo_loop opts) out (playback rt_ll rt_ly repaired out)
+                 (ref_show W H (blank W H, None) acc).
+Proof. exact anim_mixed_alpha. Qed.
+Print Assumptions C18_anim_mixed_alpha.
+
 (** blending never changes alpha: the alpha of a blend depends on the alphas only *)
 Theorem C18_blending_alpha_depends_on_alpha_only : forall s s' d d',
   alpha_only s = alpha_only s' -> alpha_only d = alpha_only d' ->
